@@ -11,6 +11,8 @@ pub fn enum_load(_s: u64) -> Vec<String> {
         vec!["p($X) :- q($X), r($X).", "q(a).", "r(a)."],
         vec!["w(0.5).", "v(3)."],
         vec!["l([a, b | $T]) :- m($T)."],
+        vec!["city(Zürich).", "mild($C) :- temperature($C, $T), $T > 10.5, sunny($C).", "temperature(Zürich, 17.5)."],
+        vec!["π(3.14159).", "big($X) :- $X > 2.5."],
     ];
     let mut out = vec![];
     for p in &progs {
